@@ -213,6 +213,38 @@ def collect_models(model):
     return ms
 
 
+class _NullRec:
+    """W2's class factory reports to a recorder; W1 only needs the classes."""
+
+    def on_new(self, o):
+        pass
+
+    def on_init(self, o, name, kw):
+        pass
+
+
+UCLS_VARIANTS = ["plain", "own-dunders", "inherited-dunders", "dataclass"]  # variants that accept textX's _tx_* attributes
+
+
+def draw_user_classes(t):
+    """A drawn subset of the item grammar's rules gets user classes: during a load textX keeps their attributes in a
+    per-class side table and runs __init__ only after resolution, so the resolver reads and writes reference lists of
+    such objects through another path than for plain textX classes."""
+    if not t.chance(1, 3, "user-classes"):
+        return []
+    spec = []
+    for name in ("Use", "Def", "Box", "Model"):
+        if t.chance(1, 2, "ucls-" + name):
+            spec.append((name, t.pick(UCLS_VARIANTS, "ucls-variant")))
+    return spec
+
+
+def make_user_classes(spec):
+    from .w2_lifecycle import make_class
+
+    return [make_class(n, v, _NullRec()) for n, v in spec]
+
+
 def run(ctx):
     """One run = one metamodel, 1-3 successive loads of freshly generated worlds
     (earlier models are dropped: ids get recycled, per-load bookkeeping must not
@@ -229,6 +261,11 @@ def run(ctx):
     if nloads > 1 and same_world:
         nloads = 4 + t.draw(9, "nreloads")  # many identical reloads make id recycling (near) certain in any process
     kw = {"global_repository": True} if family == "plaingr" else {}
+    ucls = draw_user_classes(t)
+    ctx.ucls = ucls
+    if ucls:
+        kw["classes"] = make_user_classes(ucls)
+        ctx.probe("user-classes")
     mm = metamodel_from_str(grammar(), textx_tools_support=tools, memoization=memo, **kw)
     sigs = []
     samples = []
@@ -289,13 +326,15 @@ def episode(ctx, t, prop, family, tools, memo, mm, rep):
         "family": family,
         "mode": mode,
         "tools": tools,
+        "user_classes": [list(x) for x in ctx.ucls],
         "files": {os.path.basename(p): fe.text for p, fe in w.files.items()},
         "plans": {r.key: r.plan for r in refs if r.plan != ("now",)},
     }
 
     def build(scheduler):
         m2 = metamodel_from_str(grammar(), textx_tools_support=tools, memoization=memo,
-                                **({"global_repository": True} if family == "plaingr" else {}))
+                                **({"global_repository": True} if family == "plaingr" else {}),
+                                **({"classes": make_user_classes(ctx.ucls)} if ctx.ucls else {}))
         m2.register_scope_providers({"*.*": ScriptedProvider(base_provider(family, root), scheduler, ctx)})
         return m2
 
